@@ -257,6 +257,60 @@ async fn applied_oracle(out: &mut Out, layout: &str, rid: u64, rs: &RecoveredSta
     }
 }
 
+/// recovery under READ faults (manifest, checkpoint, segments): for every `get` of a recovery of
+/// this layout and a set of mangling kinds the result must be an error or the clean state
+async fn recover_under_read_faults(out: &mut Out, real: &Real, rng: &mut Rng) {
+    use crate::c12::{Fault, FaultStore};
+    let mut img: std::collections::BTreeMap<String, Vec<u8>> = std::collections::BTreeMap::new();
+    if let Ok(l) = real.store.list("", None).await {
+        for o in l.objects {
+            if let Ok(d) = real.store.get(&o.key).await {
+                img.insert(o.key, d);
+            }
+        }
+    }
+    let clean = {
+        let st = FaultStore::from_image(&img);
+        let r = RecoveryManager::new(st.clone(), PREFIX, real.rid).recover().await;
+        (r, st.calls())
+    };
+    let (clean_fold, ncalls) = match &clean.0 {
+        Ok(rs) => (sorted_map(&fold_recovered(rs)), clean.1),
+        Err(_) => return,
+    };
+    for idx in 0..ncalls {
+        let kinds = [
+            Fault::Fail,
+            Fault::ReadEmpty { persistent: false },
+            Fault::ReadTrunc { permille: rng.range(1, 999) as u16, persistent: false },
+            Fault::ReadFlip { permille: rng.below(1000) as u16, n: 1, mask: 1 << rng.below(8), persistent: false },
+            Fault::ReadFlip { permille: rng.below(1000) as u16, n: rng.range(1, 3) as u8, mask: rng.range(1, 255) as u8, persistent: false },
+        ];
+        for f in kinds {
+            let st = FaultStore::from_image(&img);
+            st.inner.lock().unwrap().faults.insert(idx, f);
+            let r = RecoveryManager::new(st.clone(), PREFIX, real.rid).recover().await;
+            let rec = st.inner.lock().unwrap().read_faults.first().cloned();
+            let key = rec.as_ref().map(|r| r.key.clone()).unwrap_or_default();
+            let object = if key.contains("/checkpoints/") { "checkpoint" } else { rec.as_ref().map(|r| r.object).unwrap_or("-") };
+            let outcome = rec.as_ref().map(|r| r.outcome).unwrap_or("error");
+            out.count(&format!("recover-read-fault:{}:{}:{}", f.name(), object, if object == "checkpoint" { if r.is_err() { "rejected" } else { "accepted" } } else { outcome }));
+            if let Ok(rs) = &r {
+                let got = sorted_map(&fold_recovered(rs));
+                if got != clean_fold {
+                    let sig = if outcome == "accepted-different" {
+                        format!("C11:read-corruption-accepted:{}:{}", object, f.name())
+                    } else {
+                        format!("C11:recover:read-fault:silently-different-state:{}", object)
+                    };
+                    out.violation(&sig, "recover() under a read fault returns Ok with a state different from a clean recovery (it must fail or return the same state)",
+                        json!({"layout": real.text, "recovery_call": idx, "fault": format!("{:?}", f), "object": key, "clean": show_upds(&clean_fold), "got": show_upds(&got)}));
+                }
+            }
+        }
+    }
+}
+
 // ---------------------------------------------------------------------------------------------
 // update sets: several replicas, several shards per replica, each (replica, shard) its own clock
 // ---------------------------------------------------------------------------------------------
@@ -635,6 +689,9 @@ async fn layout(out: &mut Out, rng: &mut Rng, ups: &[Upd], force_chk_first: bool
             let text = real.text.clone();
             applied_oracle(out, &text, real.rid, rs, &snap, &state, &persisted, rng, claimed, tag).await;
         }
+    }
+    if r.is_ok() && (force_chk_first || rng.chance(1, 8)) {
+        recover_under_read_faults(out, &real, rng).await;
     }
     let fold = match &r {
         Ok(rs) => {
